@@ -36,8 +36,13 @@ def dates(n, start="2000-01-01"):
     return [str(d.date()) for d in pd.date_range(start, periods=n, freq="D")]
 
 
+STRESS = {"on": False}
+
+
 def series(r, n, lo, hi, kind=None):
     """a non-negative forcing series with zeros, dry spells and bursts"""
+    if STRESS["on"]:
+        kind = kind or r.choice(["dry_start", "zeros", "zeros", "mixed", "spell", "burst"])
     kind = kind or r.choice(["steady", "dry_start", "spell", "burst", "zeros", "mixed"])
     out = []
     for i in range(n):
@@ -191,7 +196,8 @@ class Gen:
         for p in adds:
             if pp[p]["constant"] * F(102, 100) + lm[p] > 1:
                 lm[p] = F(0)
-        lm["volume"] = self.r.choice([F(3, 100), F(1, 10), F(0)])
+        # liquor that carries pollutant mass must carry water too (mass without water is outside "wet" fluxes)
+        lm["volume"] = self.r.choice([F(3, 100), F(1, 10), F(1, 10)])
         return {"process_parameters": pp, "liquor_multiplier": lm, "percent_solids": self.r.choice([F(1, 5000), F(1, 100), F(0)])}
 
     def wwtw(self):
@@ -277,6 +283,7 @@ class Gen:
 def gen_model(r, ndates=4, polset=None, size=None, opts=None):
     """returns a config dict {polset, dates, nodes, arcs, orchestration?}"""
     opts = opts or {}
+    STRESS["on"] = bool(opts.get("stress"))
     polset = polset or r.choice(["simple", "four", "reordered", "one"])
     set_pollutants(polset)
     g = Gen(r, ndates, polset, opts)
